@@ -57,9 +57,10 @@ VARIABLES pid,     \* index of the program of the batch this behaviour executes
           crossed, \* an exception has crossed an activation boundary (raised by a callee into its caller)
           oc,      \* "outside the class": an exception raised by a call was caught by a handler of the caller, or a finally
                    \* block running during propagation raised an exception of its own
+          lists,   \* list objects: address -> sequence of values  (l = [], l.append(e), x = l.pop(), x = l[k], l[k] = e)
           lrd,     \* cells read by the last step only inside the body of a lambda value it called (a subset of rd)
           lnode    \* ... and the statement that created that lambda (0 = the step called no lambda value)
-vars == <<pid, ctrl, envs, cells, heap, log, dec, status, cur, how, rd, wr, steps, inp, xlog, xnode, xfirst, delx, hb, crossed, oc, lrd, lnode>>
+vars == <<pid, ctrl, envs, cells, heap, log, dec, status, cur, how, rd, wr, steps, inp, xlog, xnode, xfirst, delx, hb, crossed, oc, lrd, lnode, lists>>
 
 P        == Progs[pid]
 ND(n)    == P.nodes[n]
@@ -80,11 +81,15 @@ Truthy(v) == CASE v[1] = "b" -> v[2] = 1
                [] v[1] = "l" -> v[3] > 0
                [] v[1] = "r" -> v[2] > 0
                [] v[1] = "c" -> v[2] > 0
+               [] v[1] = "L" -> Len(lists[v[2]]) > 0
                [] OTHER -> TRUE          \* tokens, closures, exception objects
+
+\* what the outside world sees of a value: a list object shows its length, like the result of a comprehension
+ObsV(v) == IF v[1] = "L" THEN <<"c", Len(lists[v[2]]), 0>> ELSE v
 
 (* ---- static scoping (language reference 4.2.2): locals of a function ---- *)
 Binds(n) == LET d == ND(n) IN
-  CASE d.kind \in {"assign", "for", "del", "newobj"} -> Range(d.tgt)
+  CASE d.kind \in {"assign", "aug", "assign2", "for", "del", "newobj", "newlist", "pop", "getitem"} -> Range(d.tgt)
     [] d.kind = "call" -> Range(d.tgt)
     [] d.kind = "with" /\ d.name # "" -> {d.name}
     [] d.kind = "def" -> {d.name}
@@ -128,7 +133,7 @@ Eval(e, env, S) ==
         IF \E j \in 1..Len(vals) : vals[j] = Unbound
         THEN [v |-> NoneV, s |-> [S EXCEPT !.err = "NameError"]]
         ELSE
-          LET lg == Append(S.log, <<x.kind, x.k, vals>>)
+          LET lg == Append(S.log, <<x.kind, x.k, [j \in 1..Len(vals) |-> ObsV(vals[j])]>>)
               S1 == [S EXCEPT !.rd = @ \cup (Range(cs) \ {0}), !.log = lg, !.ops = Append(@, <<"call", Len(S.log)>>)] IN
           IF x.kind = "T" THEN [v |-> <<"t", x.k, Len(lg)>>, s |-> S1]
           ELSE IF S.di > Len(S.ch) THEN [v |-> NoneV, s |-> [S1 EXCEPT !.err = "ood"]]
@@ -294,7 +299,7 @@ Apply(r) ==
   /\ status' = r.status /\ how' = r.how /\ wr' = r.wr
 
 \* implicit exception (never caught by the E1/E2 handlers the class allows): 1 NameError, 2 TypeError, 3 AttributeError
-ExcV(name) == <<"exc", <<"e", CASE name = "NameError" -> 1 [] name = "AttributeError" -> 3 [] OTHER -> 2, 0>>>>
+ExcV(name) == <<"exc", <<"e", CASE name = "NameError" -> 1 [] name = "AttributeError" -> 3 [] name = "IndexError" -> 4 [] OTHER -> 2, 0>>>>
 Quiet == UNCHANGED <<envs, dec, log, cells, status>> /\ how' = "" /\ rd' = {} /\ wr' = {}
 
 (* evaluate expression e of node n under every canonical choice vector; K(r) continues *)
@@ -359,11 +364,45 @@ NCalls(c) == Cardinality({i \in 1..Len(c) : c[i].k = "call"})
 Exec(n) ==
   LET d == ND(n)  f == Top  env == f.env  c1 == Adv(ctrl) IN
   /\ cur' = (IF d.kind = "try" THEN 0 ELSE n)
-  /\ CASE d.kind = "assign" ->
+  /\ CASE d.kind \in {"assign", "aug"} ->      \* aug: `x op= e`, its expression is  x op e  (the target is read first)
           WithEval(n, d.e, env, LAMBDA r :
              LET c == CellOf(envs, env, d.tgt[1]) IN
              /\ ctrl' = c1 /\ log' = r.s.log /\ UNCHANGED <<envs, status>> /\ how' = ""
              /\ cells' = SetCell(cells, c, r.v) /\ wr' = {c})
+      [] d.kind = "assign2" ->    \* x, y = e1, e2  (e is seq2(e1, e2): both values are computed, then x is bound, then y)
+          WithEval(n, d.e, env, LAMBDA r :
+             LET ca == CellOf(envs, env, d.tgt[1])  cb == CellOf(envs, env, d.tgt[2]) IN
+             /\ ctrl' = c1 /\ log' = r.s.log /\ UNCHANGED <<envs, status>> /\ how' = ""
+             /\ cells' = SetCell(SetCell(cells, ca, r.v), cb, r.s.aux) /\ wr' = {ca, cb})
+      [] d.kind = "newlist" ->    \* tgt = []   (the list itself is created in the Step epilogue)
+          LET c == CellOf(envs, env, d.tgt[1]) IN
+          /\ ctrl' = c1 /\ UNCHANGED <<envs, dec, log, status>> /\ how' = "" /\ rd' = {} /\ wr' = {c}
+          /\ cells' = SetCell(cells, c, <<"L", Len(lists) + 1, 0>>)
+      [] d.kind = "append" ->     \* name.append(e): the list is looked up first, then e is evaluated
+          LET c == CellOf(envs, env, d.name)  lv == IF c = 0 THEN Unbound ELSE cells[c] IN
+          IF lv = Unbound THEN Apply(Prop(ctrl, ExcV("NameError"), log, cells)) /\ UNCHANGED <<envs, dec>> /\ rd' = {}
+          ELSE /\ lv[1] = "L"          \* generator guarantees; otherwise not judged
+               /\ WithEvalX(n, d.e, env, log, <<>>, {c}, LAMBDA r :
+                     /\ ctrl' = c1 /\ log' = r.s.log /\ UNCHANGED <<envs, status, cells>> /\ how' = "" /\ wr' = {})
+      [] d.kind \in {"pop", "getitem"} ->     \* tgt = name.pop()  /  tgt = name[k]
+          LET c == CellOf(envs, env, d.name)  lv == IF c = 0 THEN Unbound ELSE cells[c]
+              tc == CellOf(envs, env, d.tgt[1]) IN
+          /\ UNCHANGED <<envs, dec>>
+          /\ IF lv = Unbound THEN Apply(Prop(ctrl, ExcV("NameError"), log, cells)) /\ rd' = {}
+             ELSE /\ lv[1] = "L" /\ rd' = {c}
+                  /\ LET ls == lists[lv[2]]
+                         ix == IF d.kind = "pop" THEN Len(ls) ELSE d.k + 1 IN
+                     IF ix < 1 \/ ix > Len(ls) THEN Apply(Prop(ctrl, ExcV("IndexError"), log, cells))
+                     ELSE /\ ctrl' = c1 /\ UNCHANGED <<log, status>> /\ how' = ""
+                          /\ cells' = SetCell(cells, tc, ls[ix]) /\ wr' = {tc}
+      [] d.kind = "setitem" ->    \* name[k] = e: e is evaluated first, then the list is looked up
+          WithEval(n, d.e, env, LAMBDA r :
+             LET c == CellOf(envs, env, d.name)  lv == IF c = 0 THEN Unbound ELSE cells[c] IN
+             IF lv = Unbound THEN Apply(Prop(ctrl, ExcV("NameError"), r.s.log, cells)) /\ UNCHANGED envs
+             ELSE /\ lv[1] = "L"
+                  /\ IF d.k + 1 > Len(lists[lv[2]])
+                     THEN Apply(Prop(ctrl, ExcV("IndexError"), r.s.log, cells)) /\ UNCHANGED envs
+                     ELSE /\ ctrl' = c1 /\ log' = r.s.log /\ UNCHANGED <<envs, status, cells>> /\ how' = "" /\ wr' = {})
       [] d.kind = "newobj" ->     \* tgt = O(): a fresh object without attributes (the heap grows in the Step epilogue)
           LET c == CellOf(envs, env, d.tgt[1]) IN
           /\ ctrl' = c1 /\ UNCHANGED <<envs, dec, log, status>> /\ how' = "" /\ rd' = {} /\ wr' = {c}
@@ -485,6 +524,21 @@ Step ==
              ELSE heap
   /\ LET f0 == Top
          n0 == IF f0.i <= Len(f0.blk) THEN f0.blk[f0.i] ELSE 0
+         k0 == IF n0 = 0 THEN "" ELSE ND(n0).kind
+         ok == how' = "" /\ k0 \in {"newlist", "append", "pop", "setitem"}
+         ad == IF ok /\ k0 # "newlist" THEN cells[CellOf(envs, f0.env, ND(n0).name)][2] ELSE 0
+         val == IF ok /\ k0 \in {"append", "setitem"}
+                THEN LET used == SubSeq(dec', Len(dec) + 1, Len(dec'))
+                         ch == used \o [j \in 1..(ND(n0).nch - Len(used)) |-> 0] IN
+                     Eval(ND(n0).e, f0.env, S0(ch)).v
+                ELSE NoneV IN
+     lists' = IF ~ok THEN lists
+              ELSE IF k0 = "newlist" THEN Append(lists, <<>>)
+              ELSE IF k0 = "append" THEN [lists EXCEPT ![ad] = Append(@, val)]
+              ELSE IF k0 = "pop" THEN [lists EXCEPT ![ad] = SubSeq(@, 1, Len(@) - 1)]
+              ELSE [lists EXCEPT ![ad] = [@ EXCEPT ![ND(n0).k + 1] = val]]
+  /\ LET f0 == Top
+         n0 == IF f0.i <= Len(f0.blk) THEN f0.blk[f0.i] ELSE 0
          fc == IF n0 # 0 /\ ND(n0).kind = "call" THEN CellOf(envs, f0.env, ND(n0).name) ELSE 0
          acs == IF fc = 0 THEN {} ELSE {CellOf(envs, f0.env, ND(n0).args[j]) : j \in 1..Len(ND(n0).args)}
          isLam == fc # 0 /\ cells[fc] # Unbound /\ cells[fc][1] = "m" /\ \A c \in acs : c # 0 /\ cells[c] # Unbound IN
@@ -521,12 +575,13 @@ Init ==
   /\ ctrl = << Frame("call", FN(1).body, 0, 1) >>
   /\ log = <<>> /\ dec = <<>> /\ status = <<"run", NoneV>> /\ cur = 0 /\ steps = 0 /\ how = ""
   /\ rd = {} /\ wr = {} /\ xlog = 0 /\ xnode = 0 /\ xfirst = 0 /\ delx = FALSE /\ hb = {} /\ crossed = FALSE /\ oc = FALSE
-  /\ lrd = {} /\ lnode = 0
+  /\ lrd = {} /\ lnode = 0 /\ lists = <<>>
 
 Spec == Init /\ [][Step]_vars
 DecBound == Len(dec) <= MaxDec      \* CONSTRAINT: executions consuming more decisions are not explored further
 
 Terminal == status[1] # "run"
 (* reporting invariant: one JSON line per complete execution *)
-Emit == Terminal => PrintT(ToJson([pid |-> pid, dec |-> dec, inp |-> inp, log |-> log, out |-> status, xlog |-> xlog, xnode |-> xnode, xfirst |-> xfirst, delx |-> delx, oc |-> oc]))
+Out == IF status[1] = "ret" THEN <<"ret", ObsV(status[2])>> ELSE status
+Emit == Terminal => PrintT(ToJson([pid |-> pid, dec |-> dec, inp |-> inp, log |-> log, out |-> Out, xlog |-> xlog, xnode |-> xnode, xfirst |-> xfirst, delx |-> delx, oc |-> oc]))
 =============================================================================
